@@ -89,9 +89,14 @@ PROPS["C08"] = dict(T(16000, 40, 800000, 900), level="fault_enumeration",
     technique="deterministic simulation with fault injection: seeded stream corruption, stream end points (crash points) and read fragmentation against a reference decoder",
     rule="Scenario: decoder configuration x stream construction x cut point x end kind x fragmentation, all from the tape.")
 
+PROPS["C16"] = dict(T(12000, 40, 600000, 900),
+    text="Text and JSON codecs on top of a frame codec (length-field, varint, delimiter) on an encoder channel joined to a decoder channel, or with a peer injecting reference-framed frames (truncated objects, non-object top levels, a valid object followed by blanks/garbage/a second object inside the same frame, frames larger than encoding/json's read buffer) in tape-chosen pieces under byte-wise/random read fragmentation. Both codecs consume a lazy frame reader over the transport, so how much of a frame is pulled depends on fragmentation. Oracle: received sequence equals the sent sequence (canonical JSON, exact numbers with UseNumber), a frame that does not begin with a complete valid object raises and delivers nothing, and after every delivered frame the stream position is at the frame end (the following frames decode correctly).",
+    note=NOTE + " Value equality of encode/decode is input-driven (generated strings and trees); the stream-position and rejection clauses are what fragmentation and interleaving decide.",
+    rule="Scenario: frame codec x format codec x generated values x malformed-frame injection x fragmentation from the tape.")
+
 NOT_APPLICABLE = {
     "C03": "Pipeline order and routing are pure functions of the build program and the event: the handler list is immutable after build and traversed by whichever goroutine delivers the event; no schedule, clock, fault or I/O behaviour enters. Simulation would only be relabelled input generation (DESIGN.md section 3, C03).",
     "C19": "pool.Pool adds no concurrency, time or I/O of its own: shard choice is arithmetic on sizes, mutual exclusion is entirely sync.Pool's, which the simulator has to replace by a stub, so simulated concurrent use would exercise the stub and not the repository (DESIGN.md section 3, C19).",
 }
-for _p in ["C15", "C16"]:
+for _p in ["C15"]:
     NOT_APPLICABLE.setdefault(_p, "check under construction in this session (planned as applicable, DESIGN.md section 3); not claimed until it runs clean")
